@@ -83,6 +83,9 @@ pub trait MapH {
     /// traverse with flavour `f`; `take`: number of next() calls before the iterator is dropped
     /// (None: until the end, then `extra` more next() calls)
     fn iterate(&mut self, f: u8, take: Option<usize>, extra: usize) -> IterOut;
+    /// full traversal; before every `every`-th step `between(self_as_reader)` is called with a
+    /// second handle of the same map, and a nested iterator is stepped
+    fn iterate_mixed(&mut self, f: u8, every: usize, between: &mut dyn FnMut(&mut dyn MapH, usize)) -> IterOut;
     /// the iterator of flavour f is created, `take` items consumed and the iterator returned alive
     fn live_iter(&mut self, f: u8, take: usize) -> Box<dyn std::any::Any>;
     fn stats(&self) -> Result<StatsOut>;
@@ -281,6 +284,51 @@ macro_rules! impl_maph {
                     5 => drive((&self.0).into_iter(), take, extra, kv),
                     _ => drive((&mut self.0).into_iter(), take, extra, kv),
                 }
+            }
+            fn iterate_mixed(&mut self, f: u8, every: usize, between: &mut dyn FnMut(&mut dyn MapH, usize)) -> IterOut {
+                let kv = |(k, v): ($kt, Vec<u8>)| (Some(k.as_bytes().to_vec()), Some(v));
+                let mut other = $wrap(self.0.clone());
+                let mut nested = self.0.keys();
+                let mut out = IterOut::default();
+                macro_rules! run {
+                    ($it:expr, $conv:expr) => {{
+                        let mut it = $it;
+                        let mut step = 0usize;
+                        loop {
+                            if every > 0 && step % every == 0 {
+                                between(&mut other, step);
+                                let _ = nested.next();
+                            }
+                            out.hints.push(it.size_hint());
+                            match it.next() {
+                                Some(x) => out.items.push($conv(x)),
+                                None => {
+                                    out.ended = true;
+                                    break;
+                                }
+                            }
+                            step += 1;
+                            if step > 50_000_000 {
+                                break;
+                            }
+                        }
+                        for _ in 0..2 {
+                            between(&mut other, step);
+                            out.hints.push(it.size_hint());
+                            out.after_end.push(it.next().is_some());
+                        }
+                    }};
+                }
+                match f % 7 {
+                    0 => run!(self.0.iter(), kv),
+                    1 => run!(self.0.iter_mut(), kv),
+                    2 => run!(self.0.keys(), |k: $kt| (Some(k.as_bytes().to_vec()), None)),
+                    3 => run!(self.0.values(), |v: Vec<u8>| (None, Some(v))),
+                    4 => run!(self.0.clone().into_iter(), kv),
+                    5 => run!((&self.0).into_iter(), kv),
+                    _ => run!((&mut self.0).into_iter(), kv),
+                }
+                out
             }
             fn live_iter(&mut self, f: u8, take: usize) -> Box<dyn std::any::Any> {
                 match f % 4 {
